@@ -404,28 +404,28 @@ open Req.Attempt Req.Lemmas.C10Attempt
 /-- After the first application of the request middleware every later application reproduces
 the first one's wire request (and leaves the carried state alone). -/
 theorem mw_after_first (c : ClientCfg) (hx : c.isXML c.jsonCT = false) (st : ReqState)
-    (hr : unreplayable R st = false) (k : Nat) :
+    (hr : unreplayable R st = false) (hct : st.contract = true) (k : Nat) :
     Attempt.mw R c (k + 1) (stateAt R c st (k + 1)) = Attempt.mw R c 0 st := by
   induction k with
-  | zero => exact mw_fix c hx 0 0 st hr
+  | zero => exact mw_fix c hx 0 0 st hr hct
   | succ k ih =>
     have : stateAt R c st (k + 1 + 1) = (Attempt.mw R c 0 st).1 := by
       show (Attempt.mw R c (k + 1) (stateAt R c st (k + 1))).1 = _
       rw [ih]
     rw [this]
-    exact mw_fix c hx 0 (k + 1) st hr
+    exact mw_fix c hx 0 (k + 1) st hr hct
 
 /-- **attempts_identical**: as long as nothing but the library's own middleware touches the
 request between attempts, attempt `k+1` puts exactly the request of attempt `k` on the wire —
 method, URL, query, headers, cookies and complete body — for every request that `Do` does not
 refuse up front. -/
 theorem attempts_identical (c : ClientCfg) (hx : c.isXML c.jsonCT = false) (st : ReqState)
-    (hr : unreplayable R st = false) (k : Nat) :
+    (hr : unreplayable R st = false) (hct : st.contract = true) (k : Nat) :
     build R c st (k + 1) = build R c st k := by
   have h : ∀ n, build R c st (n + 1) = build R c st 0 := by
     intro n
     show (Attempt.mw R c (n + 1) (stateAt R c st (n + 1))).2 = (Attempt.mw R c 0 (stateAt R c st 0)).2
-    rw [mw_after_first c hx st hr n]; rfl
+    rw [mw_after_first c hx st hr hct n]; rfl
   cases k with
   | zero => exact h 0
   | succ k => rw [h (k + 1), h k]
@@ -439,7 +439,7 @@ theorem foldl_hooks_id (l : List (Nat × (Obs → ReqState → ReqState))) (ob :
     exact ih s fun y hy => h y (List.mem_cons_of_mem _ hy)
 
 theorem wires_same_aux (p : Policy ReqState) (c : ClientCfg) (hxml : c.isXML c.jsonCT = false) (st : ReqState)
-    (hhooks : ∀ x ∈ p.hooks, ∀ o s, x.2 o s = s) (hr : unreplayable R st = false)
+    (hhooks : ∀ x ∈ p.hooks, ∀ o s, x.2 o s = s) (hr : unreplayable R st = false) (hct : st.contract = true)
     (script : List Outcome) (ra : Nat) (s : ReqState) (prev : Option Resp)
     (hinv : Attempt.mw R c ra s = Attempt.mw R c 0 st) :
     ∀ x ∈ wires (loop R p (Attempt.mw R c) script ra s prev).1, x.2 = build R c st 0 := by
@@ -458,7 +458,7 @@ theorem wires_same_aux (p : Policy ReqState) (c : ClientCfg) (hxml : c.isXML c.j
         rw [h1, hinv]; rfl
       · refine ih (ra + 1) _ _ ?_ x h1
         rw [hns]
-        exact mw_fix c hxml 0 ra st hr
+        exact mw_fix c hxml 0 ra st hr hct
     · have h' : wants p o ra = false := by simpa using h
       obtain ⟨ev, fin, hev, _, _, hw, -⟩ := iter_stop p (Attempt.mw R c) o ra s prev h'
       obtain ⟨fin', _, hl⟩ := loop_cons_stop p (Attempt.mw R c) o rest ra s prev h'
@@ -475,14 +475,14 @@ the request alone, every request that reaches the wire — whatever the outcome 
 count, the conditions — is the request of the first attempt. -/
 theorem all_attempts_same_wire (p : Policy ReqState) (c : ClientCfg) (hx : c.isXML c.jsonCT = false)
     (st : ReqState) (script : List Outcome)
-    (hhooks : ∀ x ∈ p.hooks, ∀ o s, x.2 o s = s) :
+    (hhooks : ∀ x ∈ p.hooks, ∀ o s, x.2 o s = s) (hct : st.contract = true) :
     ∀ x ∈ wires (run R p (Attempt.mw R c) (unreplayable R st) script st).events, x.2 = build R c st 0 := by
   unfold run
   split
   · simp [wires]
   · rename_i hc
     by_cases hr : unreplayable R st = false
-    · exact wires_same_aux p c hx st hhooks hr script 0 st none rfl
+    · exact wires_same_aux p c hx st hhooks hr hct script 0 st none rfl
     · -- an unreplayable body that is not refused is sent at most once
       have hr' : unreplayable R st = true := by simpa using hr
       have hd : p.enabled = false ∨ p.maxRetries = 0 := by
@@ -521,20 +521,20 @@ parameters of both levels, base URL, scheme), raw query + merged query parameter
 reason every attempt sends the same bytes; `hx` is the one law about the environment
 (`util.IsXMLType` does not hold of the JSON content type the pipeline itself stores). -/
 theorem prepare_idempotent (c : ClientCfg) (hx : c.isXML c.jsonCT = false) (j k : Nat) (st : ReqState)
-    (hr : unreplayable R st = false) :
-    Attempt.mw R c (k + 1) (Attempt.mw R c j st).1 = Attempt.mw R c j st := mw_fix c hx j k st hr
+    (hr : unreplayable R st = false) (hct : st.contract = true) :
+    Attempt.mw R c (k + 1) (Attempt.mw R c j st).1 = Attempt.mw R c j st := mw_fix c hx j k st hr hct
 
 /-- What every attempt's URL and query are: functions of what the CALLER set (`RawURL`, path
 parameters of both levels, `BaseURL`, scheme, query parameters of both levels) — untouched by
 the attempts. -/
 theorem url_every_attempt (c : ClientCfg) (hx : c.isXML c.jsonCT = false) (st : ReqState)
-    (hr : unreplayable R st = false) (k : Nat) :
+    (hr : unreplayable R st = false) (hct : st.contract = true) (k : Nat) :
     (build R c st k).url = urlOf c st ∧
     (build R c st k).query = st.rawQuery.map (fun p => (p.1, [p.2])) ++ mergeQuery c.query st.query := by
   have h0 : build R c st k = build R c st 0 := by
     induction k with
     | zero => rfl
-    | succ n ih => rw [attempts_identical c hx st hr n, ih]
+    | succ n ih => rw [attempts_identical c hx st hr hct n, ih]
   rw [h0]
   exact ⟨rfl, rfl⟩
 
@@ -550,13 +550,13 @@ theorem jar_step (sets : List (List (Str × Str))) (jar0 : List (Str × Str)) (k
 brought up to date by the `Set-Cookie`s of response `k` — and nothing else; without a
 `Set-Cookie` in response `k` the two are equal byte for byte. -/
 theorem attempts_identical_modulo_jar (c : ClientCfg) (hx : c.isXML c.jsonCT = false) (st : ReqState)
-    (hr : unreplayable R st = false) (sets : List (List (Str × Str))) (jar0 : List (Str × Str)) (k : Nat) :
+    (hr : unreplayable R st = false) (hct : st.contract = true) (sets : List (List (Str × Str))) (jar0 : List (Str × Str)) (k : Nat) :
     withJar (build R c st (k + 1)) (jarBefore sets jar0 (k + 1)) =
       withJar (build R c st k) (((sets[k]?).getD []).foldl jarSet (jarBefore sets jar0 k)) ∧
     ((sets[k]?).getD [] = [] →
       withJar (build R c st (k + 1)) (jarBefore sets jar0 (k + 1)) =
         withJar (build R c st k) (jarBefore sets jar0 k)) := by
-  rw [attempts_identical c hx st hr k, jar_step]
+  rw [attempts_identical c hx st hr hct k, jar_step]
   refine ⟨rfl, ?_⟩
   intro h
   rw [h]
